@@ -14,6 +14,7 @@ import (
 	"sort"
 	"strings"
 	"sync"
+	"sync/atomic"
 	"testing"
 	"time"
 
@@ -1375,6 +1376,271 @@ var raceFree = ev.Register(&ev.P[raceCase]{
 	Require: []string{"coldStart"},
 })
 
+// ------------------------------------------------------------------------------------------
+// held objects re-read under churn: the hit path of anything memoised outside the object
+
+type heldDay struct {
+	Y, M, D int
+	Class   string // how the generator chose the day
+}
+
+type hotCase struct {
+	Procs  int
+	Days   []heldDay // one held Lunar per entry, built before the goroutines start
+	Extra  []string  // further zero-argument Lunar accessors re-read besides the conditional ones
+	G      int       // goroutines re-reading the held objects
+	Rounds int       // per goroutine: rounds of Reps back-to-back re-reads of one accessor of one object, then the next accessor on the next object
+	First  int       // accessor of round 0
+	Reps   int
+	Churn  [][]call // further goroutines running generated calls (they evict the year cache) until the readers finish
+}
+
+// conditionalAccessors answer "nothing" on most days and something on the days the seasonal rules single out; they
+// are the reads whose value depends on more than the object's own date fields (term table, stems, year ends)
+var conditionalAccessors = []string{"GetFestivals", "GetOtherFestivals", "GetJieQi", "GetJie", "GetQi", "GetShuJiu", "GetFu", "GetHou", "GetWuHou", "GetYearInGanZhiByLiChun", "GetMonthInGanZhiExact", "GetYueXiang", "GetLiuYao"}
+
+// the same accessors as direct calls (no reflection between two reads: more re-reads per second, nothing that orders the goroutines)
+var conditionalReads = []func(l *calendar.Lunar) string{
+	func(l *calendar.Lunar) string { return listStr(l.GetFestivals()) },
+	func(l *calendar.Lunar) string { return listStr(l.GetOtherFestivals()) },
+	func(l *calendar.Lunar) string { return l.GetJieQi() },
+	func(l *calendar.Lunar) string { return l.GetJie() },
+	func(l *calendar.Lunar) string { return l.GetQi() },
+	func(l *calendar.Lunar) string {
+		if x := l.GetShuJiu(); x != nil {
+			return x.ToFullString()
+		}
+		return "nil"
+	},
+	func(l *calendar.Lunar) string {
+		if x := l.GetFu(); x != nil {
+			return x.ToFullString()
+		}
+		return "nil"
+	},
+	func(l *calendar.Lunar) string { return l.GetHou() },
+	func(l *calendar.Lunar) string { return l.GetWuHou() },
+	func(l *calendar.Lunar) string { return l.GetYearInGanZhiByLiChun() },
+	func(l *calendar.Lunar) string { return l.GetMonthInGanZhiExact() },
+	func(l *calendar.Lunar) string { return l.GetYueXiang() },
+	func(l *calendar.Lunar) string { return l.GetLiuYao() },
+}
+
+func safeRead(f func(l *calendar.Lunar) string, l *calendar.Lunar) (out string) {
+	defer func() {
+		if r := recover(); r != nil {
+			out = fmt.Sprintf("PANIC:%v", r)
+		}
+	}()
+	return f(l)
+}
+
+func renderCall(m reflect.Value, name string) (out string) {
+	defer func() {
+		if r := recover(); r != nil {
+			out = fmt.Sprintf("PANIC:%v", r)
+		}
+	}()
+	res := m.Call(nil)
+	return dig.Render(res[0], name, map[string]string{})
+}
+
+func runHot(c hotCase) error {
+	old := runtime.GOMAXPROCS(c.Procs)
+	defer runtime.GOMAXPROCS(old)
+	calendar.VerifResetYearCache()
+	names := append(append([]string(nil), conditionalAccessors...), c.Extra...)
+	type held struct {
+		l     *calendar.Lunar
+		calls []reflect.Value // the generated extra accessors (reflective)
+		want  []string
+	}
+	objs := make([]held, len(c.Days))
+	for i, d := range c.Days {
+		l := calendar.NewSolarFromYmd(d.Y, d.M, d.D).GetLunar()
+		objs[i].l = l
+		v := reflect.ValueOf(l)
+		for _, n := range c.Extra {
+			objs[i].calls = append(objs[i].calls, v.MethodByName(n))
+		}
+		// sequential reference: a second object for the same day, read once, nobody else running
+		rl := calendar.NewSolarFromYmd(d.Y, d.M, d.D).GetLunar()
+		rv := reflect.ValueOf(rl)
+		for _, f := range conditionalReads {
+			objs[i].want = append(objs[i].want, safeRead(f, rl))
+		}
+		for _, n := range c.Extra {
+			objs[i].want = append(objs[i].want, renderCall(rv.MethodByName(n), n))
+		}
+	}
+	wantChurn := make([][]string, len(c.Churn))
+	for g, p := range c.Churn {
+		for _, x := range p {
+			wantChurn[g] = append(wantChurn[g], run(x))
+		}
+	}
+	calendar.VerifResetYearCache()
+	var stop int32
+	errs := make([]error, c.G+len(c.Churn))
+	var readers, churners sync.WaitGroup
+	start := make(chan struct{})
+	for g := 0; g < c.G; g++ {
+		readers.Add(1)
+		go func(g int) {
+			defer readers.Done()
+			<-start
+			// round r: ONE accessor (the same for every reader in the same round, so that readers of different years are in
+			// the same code at the same time) of ONE held object, Reps times back to back with nothing in between
+			for r := 0; r < c.Rounds && errs[g] == nil; r++ {
+				i := (g + r) % len(objs)
+				o := objs[i]
+				a := (r + c.First) % len(names)
+				for k := 0; k < c.Reps; k++ {
+					got := ""
+					if a < len(conditionalReads) {
+						got = safeRead(conditionalReads[a], o.l)
+					} else {
+						got = renderCall(o.calls[a-len(conditionalReads)], names[a])
+					}
+					if got != o.want[a] {
+						errs[g] = fmt.Errorf("reader %d, round %d, re-read %d of the held Lunar of %04d-%02d-%02d (%s): %s = %.200q while other goroutines read held objects of other years / convert other years; alone it answers %.200q", g, r, k, c.Days[i].Y, c.Days[i].M, c.Days[i].D, c.Days[i].Class, names[a], got, o.want[a])
+						break
+					}
+				}
+			}
+		}(g)
+	}
+	for g := range c.Churn {
+		churners.Add(1)
+		go func(g int) {
+			defer churners.Done()
+			<-start
+			for n := 0; atomic.LoadInt32(&stop) == 0 || n < len(c.Churn[g]); n++ {
+				i := n % len(c.Churn[g])
+				if got := run(c.Churn[g][i]); got != wantChurn[g][i] && errs[c.G+g] == nil {
+					errs[c.G+g] = fmt.Errorf("churn goroutine %d call %+v: differs from its sequential result while held objects are re-read\n seq: %.300q\n con: %.300q", g, c.Churn[g][i], wantChurn[g][i], got)
+				}
+				if n > 1<<20 {
+					break
+				}
+			}
+		}(g)
+	}
+	close(start)
+	readers.Wait()
+	atomic.StoreInt32(&stop, 1)
+	churners.Wait()
+	for _, e := range errs {
+		if e != nil {
+			return e
+		}
+	}
+	if !calendar.VerifYearLockFree() {
+		return fmt.Errorf("the year-cache lock is held after all goroutines finished")
+	}
+	return nil
+}
+
+var hotReads = ev.Register(&ev.P[hotCase]{
+	Name:  "held_objects_reread_under_churn",
+	Rule:  "3..8 Lunar objects are built up front for generated days of DIFFERENT years, chosen where the seasonal rules single a day out (eve of Qingming, the fifth wu day from Lichun / Liqiu, first and last dog days, solstice and term days, lunar year end and New Year, plus ordinary days); 4..12 goroutines then re-read the conditional accessors (festivals, term, counters, pentad, Lichun year pillar, ...) and 0..3 generated further accessors round by round: in a round a reader reads ONE accessor of ONE held object Reps times back to back (all readers the same accessor, each on another year's object), then the next accessor on the next object, while 0..4 further goroutines run generated conversions that evict the year cache; oracle: EVERY single answer equals what a second object for the same day answered alone beforehand (the repeated read is the hit path of anything memoised outside the object; the switch to another object's year is the miss path that rewrites it), the churn goroutines' answers equal their sequential ones, and the lock is free afterwards; bounded by counts, no timers; non-trivial: >= 2 readers, >= 2 different years and >= 1 held day that a rule singles out",
+	Check: runHot,
+	Class: func(c hotCase) ([]string, bool) {
+		ys := map[int]bool{}
+		special := false
+		ls := []string{fmt.Sprintf("procs:%d", c.Procs)}
+		seen := map[string]bool{}
+		for _, d := range c.Days {
+			ys[d.Y] = true
+			if d.Class != "ordinary" {
+				special = true
+			}
+			if !seen[d.Class] {
+				seen[d.Class] = true
+				ls = append(ls, "day:"+d.Class)
+			}
+		}
+		if len(c.Churn) > 0 {
+			ls = append(ls, "withChurn")
+		}
+		return ls, c.G >= 2 && len(ys) >= 2 && special
+	},
+	Require: []string{"day:movable", "day:yearEnd", "withChurn", "procs:16"},
+})
+
+func genHeldDay(t *rapid.T, y int) heldDay {
+	ts := gen.Terms(y)
+	jd := func(x ref.DT) int { return ref.JDN(x.Y, x.M, x.D) }
+	nth := func(j, g, n int) int { // n-th day on or after j whose stem is g
+		for k := 0; ; k++ {
+			if ref.DayPillar(j+k)%10 == g {
+				if n--; n == 0 {
+					return j + k
+				}
+			}
+		}
+	}
+	var j int
+	cls := ""
+	switch k := rapid.IntRange(0, 9).Draw(t, "heldClass"); {
+	case k < 4:
+		cls = "movable"
+		j = []int{jd(ts[8]) - 1, nth(jd(ts[4]), 4, 5), nth(jd(ts[16]), 4, 5)}[rapid.IntRange(0, 2).Draw(t, "which")]
+	case k < 5:
+		cls = "dogDay"
+		chu := nth(jd(ts[13]), 6, 3)
+		mo := nth(jd(ts[16]), 6, 1)
+		j = []int{chu, chu + 10, mo - 1, mo, mo + 9}[rapid.IntRange(0, 4).Draw(t, "which")]
+	case k < 6:
+		cls = "term"
+		j = jd(ts[rapid.IntRange(1, 25).Draw(t, "term")])
+	case k < 8:
+		cls = "yearEnd"
+		j = gen.NewYearJDN(y) - rapid.IntRange(0, 1).Draw(t, "eve")
+	default:
+		cls = "ordinary"
+		j = gen.DayIn(t, y)
+	}
+	yy, mm, dd := ref.FromJDN(j)
+	if yy < 1 || yy > 9998 {
+		yy, mm, dd, cls = y, 6, 15, "ordinary"
+	}
+	return heldDay{yy, mm, dd, cls}
+}
+
+func genHot(t *rapid.T) hotCase {
+	base := gen.Year(t, 3, 9990)
+	c := hotCase{Procs: rapid.SampledFrom([]int{2, 4, 16, 16}).Draw(t, "procs"), G: rapid.IntRange(4, 12).Draw(t, "readers"),
+		Rounds: rapid.IntRange(13, 32).Draw(t, "rounds"), Reps: rapid.IntRange(50, 400).Draw(t, "reps"), First: rapid.IntRange(0, 12).Draw(t, "first")}
+	nd := rapid.IntRange(3, 8).Draw(t, "held")
+	for i := 0; i < nd; i++ {
+		y := base + []int{0, 1, -1, 3, 60, 64, -64, 128}[i] + rapid.IntRange(0, 1).Draw(t, "jit")*19
+		if y < 3 {
+			y = 3 + i
+		}
+		if y > 9990 {
+			y = 9990 - i
+		}
+		c.Days = append(c.Days, genHeldDay(t, y))
+	}
+	for i := rapid.IntRange(0, 3).Draw(t, "extra"); i > 0; i-- {
+		n := rapid.SampledFrom(lunarAccessors).Draw(t, "accessor")
+		if !strings.HasPrefix(n, "Set") {
+			c.Extra = append(c.Extra, n)
+		}
+	}
+	for i := rapid.IntRange(0, 4).Draw(t, "churners"); i > 0; i-- {
+		var p []call
+		for k := rapid.IntRange(1, 4).Draw(t, "len"); k > 0; k-- {
+			x := genCall(t, base)
+			x.Kind = rapid.SampledFrom([]string{"SolarToLunar", "NewLunar", "LunarYearTable", "TermTable", "TwiceInARow", "TaoFoto"}).Draw(t, "churnKind")
+			p = append(p, x)
+		}
+		c.Churn = append(c.Churn, p)
+	}
+	return c
+}
+
 func TestC09(t *testing.T) {
 	ev.Assume("the Go scheduler is not controlled: interleavings are sampled (GOMAXPROCS 1/2/16, Gosched); the race detector finds unordered executed access pairs")
 	ev.Assume("hooks VerifResetYearCache / VerifYearLockFree (build tag verif) give fresh-process cache state and a timing-free lost-unlock test")
@@ -1460,6 +1726,7 @@ func TestC09(t *testing.T) {
 		return freshCase{History: h, Probe: eraCall("p")}
 	})
 	concurrent.Rapid(ev.Share(ev.Pick(480, 4800)), genConc)
+	hotReads.Rapid(ev.Share(ev.Pick(64, 1200)), genHot)
 	// race-detector batches: the same generator, run in the -race child
 	nb := ev.Pick(1, 4)
 	per := ev.Pick(5, 40)
